@@ -29,7 +29,8 @@ INFO = {
              'connection after exactly k file bytes, reset of P connections during the negotiation, partitions of 200+ s) '
              'under five latency regimes and all segmentations; for the sizes <= 129 every cut byte k in 0..size is '
              'enumerated in every batch (exhaustive axis), for both download and the scripted-uploader role. scripted shape: '
-             'dishonest peers on either side. non-trivial = a fault fired or a dishonest step was taken; distinct = signature '
+             'dishonest peers on either side (short / long senders, lying size, offset beyond size, early close, a downloader that '
+             'stalls or never closes, a stale local file longer than the announced size). non-trivial = a fault fired or a dishonest step was taken; distinct = signature '
              'over (size class, fault kinds and positions class, state paths of both sides)'),
     'real': common.REAL + ['second real SoulSeekClient as the remote side in the pair shape'],
     'stub': common.STUB,
